@@ -419,6 +419,32 @@ func (g *Kern) emitRT(sk, mk Kind, xs []uint64) {
 	g.st.cases++
 }
 
+// round trip sk -> mk -> sk through ch-channel buffers with the special values rotated through the
+// positions (a conversion must not let one channel of a frame influence another)
+func (g *Kern) emitRTShaped(sk, mk Kind, specials []uint64) {
+	if len(specials) == 0 {
+		return
+	}
+	for _, ch := range []int{2, 3} {
+		for rot := 0; rot < 3; rot++ {
+			L := 4*ch + rot
+			xs := make([]uint64, L)
+			for i := range xs {
+				xs[i] = specials[(i*5+rot*3)%len(specials)]
+			}
+			ys := runKernelShaped(sk, mk, xs, ch)
+			zs := runKernelShaped(mk, sk, ys, ch)
+			g.flushPanics()
+			fmt.Fprintf(g.out, "rtseq %s %s %s %s\n", convName(sk, mk), convName(mk, sk), sk, mk)
+			for i, x := range xs {
+				fmt.Fprintf(g.out, "rt %s %s %s\n", cellString(x, sk), cellString(ys[i], mk), cellString(zs[i], sk))
+			}
+			g.st.lines += len(xs) + 1
+			g.st.Shapes[fmt.Sprintf("rt-ch%d-rem%d", ch, L%ch)]++
+		}
+	}
+}
+
 func intInputs(r *Rng, k Kind, tier string) []uint64 {
 	w := k.Width()
 	var xs []uint64
@@ -629,6 +655,7 @@ func genQuant(g *Kern, r *Rng, tier string, withRT bool) {
 			}
 			if withRT && sk.Width() < dk.Width() {
 				g.emitRT(sk, dk, xs)
+				g.emitRTShaped(sk, dk, intSpecials(sk))
 			}
 		}
 	}
@@ -672,6 +699,7 @@ func genC09(g *Kern, r *Rng, tier string) {
 			g.emitK(sk, dk, xs)
 			g.emitKPos(sk, dk, intSpecials(sk))
 			g.emitRT(sk, dk, xs)
+			g.emitRTShaped(sk, dk, intSpecials(sk))
 		}
 	}
 }
@@ -830,6 +858,14 @@ func genC17(g *Kern, r *Rng, tier string) {
 				}
 			}
 		}
+		// counts that are whole multiples of the truncated and of the rounded rate ("whole seconds")
+		for _, base := range []int64{int64(f), int64(f + 0.5), int64(f) + 1} {
+			for _, kk := range []int64{1, 2, 3, 10, 60, 3600} {
+				if base > 0 && base*kk <= maxN {
+					ns = append(ns, base*kk)
+				}
+			}
+		}
 		// negative counts mirror a part of the positive ones (time.Duration and int are signed; the
 		// error and order clauses are stated for every argument)
 		for i, n := 0, len(ns); i < n; i += 3 {
@@ -853,6 +889,13 @@ func genC17(g *Kern, r *Rng, tier string) {
 				if d+e >= 0 && d+e <= 86400e9 {
 					ds = append(ds, d+e)
 				}
+			}
+		}
+		// whole seconds and whole multiples of the nominal period
+		for _, kk := range []int64{1, 2, 3, 10, 60, 3600} {
+			ds = append(ds, kk*1000000000)
+			if f >= 1 {
+				ds = append(ds, kk*int64(1e9/f), kk*(int64(1e9/f)+1))
 			}
 		}
 		for i, n := 0, len(ds); i < n; i += 3 {
